@@ -255,6 +255,62 @@ def lazy_print(ctx, L, t, cc, enc, data, eager_rows, payload, what):
     return True
 
 
+_PREVIOUS = []  # the last warn-mode input with a warning seen by this shard: (type, cc, enc, data)
+
+
+def interleaved(ctx, L, a, b):
+    """Two print-outs in flight at once (rows pulled alternately, as zip() or two consumers do) and a print-out that is
+    abandoned half-way: every print-out shows exactly the rows it shows when it runs alone."""
+    import itertools
+
+    from tpmstream.io.pretty import Pretty
+
+    evs, alone = [], []
+    for t, cc, enc, data in (a, b):
+        O.reset_state()
+        obs = O.run_decode(t, data, command_code=cc, enc=enc, strict=False)
+        evs.append(list(obs.raw))
+        rows = ctx.guard(lambda: list(Pretty.unmarshal(list(obs.raw))), "C14:pretty", {"type": t, "cc": cc, "enc": bool(enc), "data": bytes(data)})
+        if rows is None:
+            return False
+        alone.append(rows)
+    payload = {"type": b[0], "cc": b[1], "enc": bool(b[2]), "data": bytes(b[3]), "interleaved_with": {"type": a[0], "cc": a[1], "enc": bool(a[2]), "data": bytes(a[3])}}
+    ctx.case(("interleaved", a[0], bytes(a[3]), b[0], bytes(b[3])), True, sample={"interleaved_print_outs": [a[0], b[0]], "rows": [len(alone[0]), len(alone[1])]} if len(alone[0]) > 5 else None)
+    ctx.count("interleaved-print-outs")
+
+    def both():
+        g = [Pretty.unmarshal(list(evs[0])), Pretty.unmarshal(list(evs[1]))]
+        got = [[], []]
+        for x, y in itertools.zip_longest(g[0], g[1]):
+            if x is not None:
+                got[0].append(x)
+            if y is not None:
+                got[1].append(y)
+        return got
+
+    got = ctx.guard(both, "C14:pretty:interleaved", payload)
+    if got is None:
+        return False
+    for k in (0, 1):
+        if got[k] != alone[k]:
+            d = next((i for i, (x, y) in enumerate(zip(got[k], alone[k])) if x != y), min(len(got[k]), len(alone[k])))
+            ctx.problem("C14:pretty:interleaved", f"printed side by side with another print-out, row {d} of {'the first' if k == 0 else 'the second'} is {strip_ansi(got[k][d])[-80:] if d < len(got[k]) else None!r}, printed alone it is {strip_ansi(alone[k][d])[-80:] if d < len(alone[k]) else None!r} ({len(got[k])} vs {len(alone[k])} rows); inputs {a[0]} {bytes(a[3]).hex()[:100]} and {b[0]} {bytes(b[3]).hex()[:100]}", payload)
+            return False
+    # abandon a print-out of the first at every third row boundary, then print the second alone
+    for stop in range(1, len(alone[0]), 3):
+        g = Pretty.unmarshal(list(evs[0]))
+        for _ in itertools.islice(g, stop):
+            pass
+        del g
+        again = ctx.guard(lambda: list(Pretty.unmarshal(list(evs[1]))), "C14:pretty:after-abandoned", payload)
+        if again is None:
+            return False
+        if again != alone[1]:
+            ctx.problem("C14:pretty:after-abandoned", f"after a print-out of {a[0]} {bytes(a[3]).hex()[:100]} was abandoned behind row {stop}, {b[0]} {bytes(b[3]).hex()[:100]} prints {len(again)} rows instead of {len(alone[1])}", payload)
+            return False
+    return True
+
+
 def judge(ctx, L, t, cc, enc, data, how=""):
     O.reset_state()
     payload = {"type": t, "cc": cc, "enc": bool(enc), "data": bytes(data)}
@@ -280,6 +336,12 @@ def judge(ctx, L, t, cc, enc, data, how=""):
             ctx.count(f"how:{how}")
         if not check_events(ctx, L, what + (" (strict)" if strict else " (warn)"), events, field_bytes, payload, accepted_input=bytes(data) if obs.outcome["kind"] == "ok" and not has_warning else None):
             return False
+        if not strict and has_warning and len(events) <= 600 and obs.outcome["kind"] == "ok":
+            cur = (t, cc, enc, bytes(data))
+            if _PREVIOUS and len(data) % 4 == 0:
+                if not interleaved(ctx, L, _PREVIOUS[0], cur):
+                    return False
+            _PREVIOUS[:] = [cur]
     return True
 
 
@@ -307,5 +369,12 @@ def run_shard(ctx):
     ctx.run_given(arb.arbitrary_input(L), lambda x: judge(ctx, L, x[0], x[1], x[2], x[3], x[4]), ctx.share(1500 if q else 25000), name="arbitrary")
 
 
+def replay_interleaved(ctx, L, payload):
+    w = payload["interleaved_with"]
+    interleaved(ctx, L, (w["type"], w.get("cc"), w.get("enc"), w["data"]), (payload["type"], payload.get("cc"), payload.get("enc"), payload["data"]))
+
+
 def replay(ctx, payload):
+    if payload.get("interleaved_with"):
+        return replay_interleaved(ctx, layout(), payload)
     judge(ctx, layout(), payload["type"], payload.get("cc"), payload.get("enc"), payload["data"])
